@@ -200,6 +200,8 @@ def kernel_cases(ctx):
             cf = [cf[i] if (i % 8) + (i // 8) < 3 else 0 for i in range(64)]
         q = [rng.range(1, qm) for _ in range(64)]
         cases.append(("idctint %s | %s" % (" ".join(map(str, cf)), " ".join(map(str, q))), "k-idctint"))
+        # the same blocks through the 2x2 reduced-size IDCT (lane model + C05_idct_2x2_eq_partial; W flag = outside c2_ok)
+        cases.append(("idct2x2 %s | %s" % (" ".join(map(str, cf)), " ".join(map(str, q))), "k-idct2x2"))
     # zero-AC shortcuts: blocks whose only non-zero AC coefficients lie in ONE row r / ONE column c, every r, c in 1..7 (and
     # DC only), for the accurate, fast and reduced-size IDCTs under SSE2, AVX2 and C
     for cmd, qscale in (("idctint", 1), ("idctfst", 4), ("idct4x4", 1), ("idct2x2", 1)):
@@ -330,7 +332,9 @@ def kernel_sig(line, stream):
         if any(abs(a * b) >= 32768 for a, b in zip(cf, qq)):
             return "idct-out-of-range-coefficients:kernel-ifast"
         return "ifast-operand-ge-8192:kernel-idct"
-    if t[0] in ("idct4x4", "idct2x2"):
+    if t[0] == "idct2x2":
+        return "kernel:idct2x2:inside-proved-boundary" if stream.endswith(":W0") else "idct-out-of-range-coefficients:kernel-2x2"
+    if t[0] == "idct4x4":
         return "kernel:" + t[0]
     if t[0] == "idctint":
         return "kernel:idctint:inside-boundary" if stream.endswith(":W0") else "idct-out-of-range-coefficients:kernel-islow"
@@ -368,9 +372,9 @@ def do_kernel(ctx, exe, drv, cases, isas):
         for i, (line, stream) in enumerate(cases):
             res = lines[i]
             wflag = ""
-            if ml is not None and line.split(" ", 1)[0] in ("fdctfst", "idctfst", "fdctint", "idctint") and " ; W" in ml[i]:
+            if ml is not None and line.split(" ", 1)[0] in ("fdctfst", "idctfst", "fdctint", "idctint", "idct2x2") and " ; W" in ml[i]:
                 ml[i], wflag = ml[i].rsplit(" ; ", 1)
-            elif line.split(" ", 1)[0] in ("fdctfst", "idctfst", "fdctint", "idctint"):
+            elif line.split(" ", 1)[0] in ("fdctfst", "idctfst", "fdctint", "idctint", "idct2x2"):
                 wflag = "W1"            # no model available: do not claim more than the known finding
             parts = (res if line.startswith("huff ") else res.split(" ; ")[0]).split(" | ")
             if len(parts) != 2 or not parts[0].startswith("S") or not parts[1].startswith("C"):
@@ -391,7 +395,7 @@ def do_kernel(ctx, exe, drv, cases, isas):
                 ctx.violation("kernel level: %s differs from the C function under %s: %s" % (cmd if cmd != "bulk" else line, isa, detail[:300]),
                               {"mode": "kernel", "isa": isa, "case": line[:6000], "result": res[:2000]},
                               signature=kernel_sig(line, stream + ":" + wflag))
-            if ml is not None and cmd not in ("bulk", "idct4x4", "idct2x2"):     # reduced-size IDCTs: no lane model yet
+            if ml is not None and cmd not in ("bulk", "idct4x4"):     # 4x4 reduced IDCT: no lane model yet (2x2 is modelled + proved)
                 nmodel += 1
                 if ml[i].strip() != res.strip():
                     ndis[(cmd, isa)] = ndis.get((cmd, isa), 0) + 1
